@@ -724,7 +724,8 @@ let model_stack_trace (args0 : string) (impl_evs : event list) : string option =
   match S.split_on_char '|' args0 with
   | flags :: _setup :: scripts :: _ ->
     let scripts_s = scripts in
-    let give_up = (match S.split_on_char ',' flags with [_; g] -> g = "1" | _ -> false) in
+    let give_up = (match S.split_on_char ',' flags with _ :: g :: _ -> g = "1" | _ -> false) in
+    let foreign = L.mem "foreign0" (S.split_on_char ',' flags) in
     let split_ops (sc : string) : string list =
       let buf = Buffer.create 16 and out = ref [] and depth = ref 0 in
       S.iter (fun ch ->
@@ -735,6 +736,7 @@ let model_stack_trace (args0 : string) (impl_evs : event list) : string option =
       L.rev !out in
     let scripts = L.map (fun sc -> L.map parse_apiop (split_ops sc)) (S.split_on_char ';' scripts) in
     ignore scripts_s;
+    if foreign then None else
     Some (S.concat " " (
       (* initial tables and the size oracle come from the implementation's snapshots *)
       let sizes : (int, coq_N) Hashtbl.t = Hashtbl.create 16 in
@@ -780,6 +782,11 @@ let () = register "stackrun" (fun args ->
     let tr = impl_evs in
     let want = match Sys.getenv_opt "VERIF_PROP" with Some p -> S.lowercase_ascii p | None -> "all" in
     let checks = [ ("c04", c04_ok); ("c05", c05_ok); ("c06", c06_ok); ("c08", c08_ok); ("c09", c09_ok); ("c10", c10_ok); ("c16", c16_ok) ] in
+    (* a handle configured with the wrong hash id can never be refreshed: C09's "the retry succeeds"
+       is about properly configured handles; everything else is demanded of these traces too *)
+    let foreign = (match S.split_on_char '|' (L.nth args 0) with
+        | flags :: _ -> L.mem "foreign0" (S.split_on_char ',' flags) | [] -> false) in
+    let checks = if foreign then L.filter (fun (n, _) -> n <> "c09") checks else checks in
     let bad = L.filter_map (fun (n, f) -> if (want = "all" || want = n) && not (f tr) then Some n else None) checks in
     (* C09 read strictly fails where a stale Add's reload unlinked unlisted tables: a recorded finding *)
     let bad = L.map (fun n -> if n = "c09" && c09_ok_gc tr then "c09-gc-only" else n) bad in
